@@ -89,10 +89,10 @@ def save (d : Disk) : R Bytes :=
   | (.ok _, d') => .ok (toBytes d'.raw)
   | (.error e, _) => .error e
 /-- `PO::from_bytes` + `Disk::from_img`: `total_blocks = img.byte_capacity()/512`, `maybe_bitmap: None`,
-`bitmap_blocks: Vec::new()` -/
-def load (b : Bytes) : Disk :=
+`bitmap_blocks: Vec::new()`.  `src` is the model's source-variant selector (not state of the Rust object). -/
+def load (src : Repairs) (b : Bytes) : Disk :=
   let raw := ofBytes 512 b
-  { raw := raw, total := raw.units.size, bitmap := none, bitmapBlocks := [] }
+  { raw := raw, total := raw.units.size, bitmap := none, bitmapBlocks := [], src := src }
 /-- negative witness: the buffer is not written back -/
 def saveForgetful (d : Disk) : R Bytes := .ok (toBytes d.raw)
 end Prodos
